@@ -202,6 +202,23 @@ class Inliner:
                 if isinstance(st, ast.FunctionDef) and st.name == f.id and self._is_new(st.name):
                     return st, False, None
         if isinstance(f, ast.Attribute) and isinstance(f.value, ast.Name) and cls is not None and f.value.id in ("self", "cls", cls.name):
+            # the class itself, then its base classes defined in the same module (a helper extracted into the common base); an override in between wins
+            chain_, seen_ = [cls], {cls.name}
+            k_ = 0
+            while k_ < len(chain_):
+                for b_ in chain_[k_].bases:
+                    bn_ = b_.id if isinstance(b_, ast.Name) else None
+                    if bn_ and bn_ not in seen_:
+                        seen_.add(bn_)
+                        chain_.extend(c_ for c_ in self.tree.body if isinstance(c_, ast.ClassDef) and c_.name == bn_)
+                k_ += 1
+            for owner_ in chain_[1:]:
+                hit_ = next((st for st in owner_.body if isinstance(st, ast.FunctionDef) and st.name == f.attr), None)
+                if hit_ is not None and not any(isinstance(st, ast.FunctionDef) and st.name == f.attr for c_ in chain_[:chain_.index(owner_)] for st in c_.body):
+                    if self._is_new(f"{owner_.name}.{hit_.name}") and f.value.id != cls.name:
+                        static = any(isinstance(d, ast.Name) and d.id == "staticmethod" for d in hit_.decorator_list)
+                        return (hit_, False, None) if static else (hit_, True, f.value)
+                    break
             for st in cls.body:
                 if isinstance(st, ast.FunctionDef) and st.name == f.attr and self._is_new(f"{cls.name}.{st.name}"):
                     static = any(isinstance(d, ast.Name) and d.id == "staticmethod" for d in st.decorator_list)
